@@ -368,6 +368,11 @@ var c16FloatLeaves = []c16Leaf{
 	{"1e-7", "", "exponent"}, {"1e21", "", "exponent"}, {"1e+21", "", "exponent"}, {"6.02214076e23", "", "exponent"},
 	{"5e-324", "", "float64-limit"}, {"1.7976931348623157e308", "", "float64-limit"}, {"2.2250738585072014e-308", "", "float64-limit"},
 	{"-0.0", "", "neg-zero"},
+	// integral values between 2^63 and 1e21: too large for an MRO integer token,
+	// small enough that many number printers would write all their digits
+	{"1e19", "", "integral-beyond-int64"}, {"1e20", "", "integral-beyond-int64"}, {"-3e19", "", "integral-beyond-int64"},
+	{"9.3e18", "", "integral-beyond-int64"}, {"18446744073709551616.0", "", "integral-beyond-int64"}, {"9.99999999999999e20", "", "integral-beyond-int64"},
+	{"1e18", "", "integral-exponent"}, {"123456789012.0", "", "integral-exponent"},
 	{"9007199254740993", "", "integer-literal-beyond-2^53"},
 	{"9223372036854775807", "", "integer-literal-int64-boundary"}, {"-9223372036854775808", "", "integer-literal-int64-boundary"},
 	{"0.1000000000000000055511151231257827", "", "excess-precision"},
